@@ -20,6 +20,7 @@ Sections
 """
 import itertools
 import math
+import os
 from collections import Counter
 from fractions import Fraction
 
@@ -27,7 +28,7 @@ import numpy as np
 
 from .. import explore
 from ..canon import digest, jsonable
-from ..guard import guarded, elfi_site
+from ..guard import guarded
 from ..report import ok, bad
 from ..ref import c13_oracles as ref
 
@@ -42,13 +43,29 @@ def _U():
     return U
 
 
+_REPO = os.path.realpath(os.environ.get('VMC_REPO', '/repo'))
+
+
+def _site(tb):
+    """Innermost traceback frame inside the repo ('relative/file.py:function'), same convention as
+    vmc.guard.elfi_site but without reading source lines (cheap enough for thousands of failing executions)."""
+    site = None
+    while tb is not None:
+        code = tb.tb_frame.f_code
+        fn = code.co_filename
+        if fn.startswith(_REPO + os.sep) or os.path.realpath(fn).startswith(_REPO + os.sep):
+            site = '%s:%s' % (os.path.relpath(os.path.realpath(fn), _REPO), code.co_name)
+        tb = tb.tb_next
+    return site
+
+
 def _try(fn, *a, **kw):
     """Call into elfi; -> (True, value) or (False, (signature, text)).  Exceptions that do not pass through
     the repository are harness bugs and propagate."""
     try:
         return True, fn(*a, **kw)
     except Exception as e:  # noqa
-        site = elfi_site(e.__traceback__)
+        site = _site(e.__traceback__)
         if site is None:
             raise
         return False, ('C13:exception:%s@%s' % (type(e).__name__, site), repr(e)[:300])
@@ -98,60 +115,65 @@ def run_quantile(case):
     boundary = 0
     upper_at_boundary = 0
     inexact_skipped = 0
+    afloat = [float(a) for a in alphas]
+    tiny = Fraction(1, 10 ** 9)
     for w in _weights_of(case, n):
         wi = (1,) * n if w is None else w
         orc = ref.QuantileOracle(x, wi)
-        adm = {a: set(float(v) for v in orc.admissible(a)) for a in alphas}
+        adm = [set(float(v) for v in orc.admissible(a)) for a in alphas]
+        amax = [max(s_) if len(s_) > 1 else None for s_ in adm]
+        off_boundary = [orc.boundary_distance(a) >= tiny for a in alphas]
         for dt in dtypes:
             xa = _arr(x, dt[0])
-            base = {}
+            base = None
             for sc in (['1'] if w is None else ['1'] + list(scales)):
                 c = _frac(sc)
                 pow2 = sc in POW2_SCALES or sc == '1'
-                prev = None
-                for a in alphas:
-                    if w is None:
-                        wa = None
-                    elif c == 1:
-                        wa = _arr(w, dt[1])
-                    else:
-                        wa = np.array(w, dtype=float) * float(c)
-                    wit = {'kind': 'quantile', 'x': list(x), 'ws': [None if w is None else list(w)],
-                           'alphas': [str(a)], 'scales': [] if sc == '1' else [sc], 'dtypes': [dt]}
-                    good, q = _try(wq, xa, float(a), weights=wa)
+                if w is None:
+                    wa = None
+                elif c == 1:
+                    wa = _arr(w, dt[1])
+                else:
+                    wa = np.array(w, dtype=float) * float(c)
+
+                def wit(ais):
+                    return {'kind': 'quantile', 'x': list(x), 'ws': [None if w is None else list(w)],
+                            'alphas': [str(alphas[i]) for i in ais], 'scales': [] if sc == '1' else [sc], 'dtypes': [dt]}
+                cur = []
+                for ai, af in enumerate(afloat):
+                    good, q = _try(wq, xa, af, weights=wa)
                     evals += 1
                     if not good:
-                        return _viol(q[0].replace('C13:exception', 'C13:quantile:exception'), {'error': q[1]}, wit,
+                        return _viol(q[0].replace('C13:exception', 'C13:quantile:exception'), {'error': q[1]}, wit([ai]),
                                      evals, evals)
                     try:
                         qf = float(q)
                     except (TypeError, ValueError):
-                        return _viol('C13:quantile:not-an-element', {'q': repr(q)}, wit, evals, evals)
-                    if qf not in adm[a]:
-                        tag, info = orc.judge(q, a) or ('not-an-element', {'q': qf})
-                        return _viol('C13:quantile:' + tag, dict(info, admissible=sorted(adm[a])), wit, evals, evals)
-                    if len(adm[a]) > 1:
+                        return _viol('C13:quantile:not-an-element', {'q': repr(q)}, wit([ai]), evals, evals)
+                    if qf not in adm[ai]:
+                        tag, info = orc.judge(q, alphas[ai]) or ('not-an-element', {'q': qf})
+                        return _viol('C13:quantile:' + tag, dict(info, admissible=sorted(adm[ai])), wit([ai]), evals, evals)
+                    if amax[ai] is not None:
                         boundary += 1
-                        upper_at_boundary += int(qf == max(adm[a]))
+                        upper_at_boundary += int(qf == amax[ai])
                     # monotone in alpha
-                    if prev is not None and qf < prev[1]:
-                        wit2 = dict(wit, alphas=[str(prev[0]), str(a)])
+                    if cur and qf < cur[-1]:
                         return _viol('C13:quantile:not-monotone-in-alpha',
-                                     {'alpha_lo': str(prev[0]), 'q_lo': prev[1], 'alpha_hi': str(a), 'q_hi': qf},
-                                     wit2, evals, evals)
-                    prev = (a, qf)
+                                     {'alpha_lo': str(alphas[ai - 1]), 'q_lo': cur[-1], 'alpha_hi': str(alphas[ai]),
+                                      'q_hi': qf}, wit([ai - 1, ai]), evals, evals)
+                    cur.append(qf)
                     # invariance to rescaling
-                    if sc == '1':
-                        base[a] = qf
-                    else:
-                        if pow2 or orc.boundary_distance(a) >= Fraction(1, 10 ** 9):
-                            if qf != base[a]:
+                    if base is not None:
+                        if pow2 or off_boundary[ai]:
+                            if qf != base[ai]:
                                 return _viol('C13:quantile:depends-on-weight-scale',
-                                             {'q_scaled': qf, 'q_unscaled': base[a], 'scale': sc}, wit, evals, evals)
+                                             {'q_scaled': qf, 'q_unscaled': base[ai], 'scale': sc}, wit([ai]), evals, evals)
                         else:
                             inexact_skipped += 1
-                    if sc == '1' and dt == dtypes[0]:
-                        table.append(qf)
+                if sc == '1':
+                    base = cur
+                    if dt == dtypes[0]:
+                        table.extend(cur)
     r = ok(outcome=digest((x, table)), trivial=False, quantile_calls=evals, quantile_alpha_on_boundary=boundary,
            quantile_upper_neighbour_at_boundary=upper_at_boundary,
            quantile_scale_comparisons_skipped_inexact_boundary=inexact_skipped,
@@ -269,7 +291,9 @@ def run_wvar(case):
                     return _viol('C13:weighted_var:differs-from-reliability-weights-formula',
                                  {'got': va.tolist(), 'exact': [str(e) for e in exact],
                                   'exact_float': [float(e) for e in exact]}, wit, evals, evals)
-                # second, numpy-based reading of the same definition
+                if sc != '1':
+                    continue
+                # second, numpy-based reading of the same definition (unscaled weights only)
                 wn = np.ones(n) if wa is None else np.asarray(wa, dtype=float)
                 with np.errstate(all='ignore'):
                     cv = np.cov(np.asarray(x, dtype=float), rowvar=False, aweights=wn, ddof=1)
@@ -277,8 +301,7 @@ def run_wvar(case):
                 if not np.allclose(va, np.diag(cv), rtol=1e-9, atol=1e-12):
                     return _viol('C13:weighted_var:differs-from-numpy-cov-aweights',
                                  {'got': va.tolist(), 'np_cov_diag': np.diag(cv).tolist()}, wit, evals, evals)
-                if sc == '1':
-                    outs.append(va.tolist())
+                outs.append(va.tolist())
     r = ok(outcome=digest((x, outs)), trivial=False, wvar_calls=evals, wvar_formula_undefined=undefined)
     r.update(evals=evals, distinct=evals - undefined)
     return r
@@ -368,9 +391,13 @@ def _gm_kwargs(cov_arg, w_arg):
     return kw
 
 
+SHAPE_SYMPTOMS = ('exception:', 'wrong-number-of-values', 'wrong-number-of-points', 'size-None-not-one-unwrapped-point')
+
+
 def _gm_sig(case, what, symptom):
-    """One signature per root cause: a single component in >= 2 dimensions is its own class."""
-    if case['k'] == 1 and case['d'] >= 2:
+    """One signature per root cause: shape-type failures (wrong count, exception) of a single component in >= 2
+    dimensions are one class, whatever the symptom; everything else is named by its symptom."""
+    if case['k'] == 1 and case['d'] >= 2 and symptom.startswith(SHAPE_SYMPTOMS):
         return 'C13:gm:one-component-multidim:' + what
     return 'C13:gm:%s:%s' % (what, symptom)
 
@@ -441,6 +468,13 @@ def run_gm_pdf(case):
 
 
 # ============================================================================= Gaussian mixture: rvs (mode E)
+MAX_VIOL = 12
+
+
+class _StopTree(Exception):
+    pass
+
+
 class Runaway(BaseException):
     """The sampler keeps drawing although every row is accepted: ends the execution (BaseException so that no
     `except Exception` in the code under test can swallow it)."""
@@ -501,7 +535,7 @@ def make_rvs_body(case):
         except Runaway:
             log['exc'] = ('runaway', '')
         except Exception as e:  # noqa  - a behaviour of the code under test (judged by check)
-            site = elfi_site(e.__traceback__)
+            site = _site(e.__traceback__)
             if site is None:
                 raise
             log['exc'] = ('%s@%s' % (type(e).__name__, site), repr(e)[:300])
@@ -543,11 +577,29 @@ def run_rvs_tree(case):
     outcomes = set()
     depth_rounds = Counter()
 
+    found = []
+    own = Counter()
+
     def check(obs, run):
         outcomes.add(digest((obs.get('out'), [r['answers'] for r in obs['rounds']])))
         depth_rounds[len(obs['rounds'])] += 1
-        return judge_rvs(case, obs)
-    st = explore.explore(body, check, bound=case.get('bound'), prune=False, max_executions=case.get('max_executions'))
+        own['executions'] += 1
+        own['choice_points'] += len(run.choices)
+        own['max_depth'] = max(own['max_depth'], len(run.choices))
+        v = judge_rvs(case, obs)
+        if v:
+            found.append((v, list(run.choices)))
+            if len(found) >= MAX_VIOL:
+                # a failing tree is not explored to the end: the first MAX_VIOL violating executions are enough
+                # to pick a small witness (a passing tree is always explored completely)
+                raise _StopTree()
+        return None
+    try:
+        st = explore.explore(body, check, bound=case.get('bound'), prune=False, max_executions=case.get('max_executions'))
+        st['violations'] = found
+    except _StopTree:
+        st = {'executions': own['executions'], 'choice_points': own['choice_points'], 'capped': False,
+              'violations': found, 'max_depth': own['max_depth'], 'complete': own['executions'], 'transitions': 0}
     res = ok(outcome=None, trivial=st['executions'] <= 1, rvs_executions=st['executions'],
              rvs_choice_points=st['choice_points'], rvs_capped=int(st['capped']))
     res.update(max_rounds=int(max(depth_rounds) if depth_rounds else 0), evals=st['executions'], distinct=len(outcomes), transitions=st.get('transitions', 0) + st['executions'],
@@ -558,7 +610,7 @@ def run_rvs_tree(case):
         for k_ in ('bound', 'max_executions'):
             wit.pop(k_, None)
         res['viol'] = {'sig': _gm_sig(case, 'rvs', v[0]),
-                       'detail': jsonable(dict(v[1], answers=choices, n_violating_executions=len(st['violations']),
+                       'detail': jsonable(dict(v[1], answers=choices, violating_executions_seen=len(st['violations']),
                                                witness=wit))}
         res['witness'] = wit
     return res
@@ -699,22 +751,18 @@ def run(ctx):
     # ---- quantile
     cases = []
     nmax = 4 if q else 5
+    alphas5 = sorted(set(_alphas(True)) | {'1/3', '2/3', '1/5', '1/6', '1/7', '1/9', '1/10', '1/11', '1/13', '1/15'},
+                     key=Fraction)
     for n in range(1, nmax + 1):
         xvals = range(3) if (q or n >= 5) else range(4)
         for x in itertools.product(xvals, repeat=n):
             c = {'kind': 'quantile', 'x': list(x), 'wmax': 3, 'alphas': alphas, 'scales': scales,
                  'dtypes': ['ff', 'ii', 'if'] if n <= 3 else ['ff']}
             if n >= 5:
-                c['scales'] = ['2', '3']
+                c.update(scales=['2', '3'], alphas=alphas5)
             elif q and n == 4:
                 c['scales'] = ['2', '1/4', '3', '1/10']
             cases.append(c)
-    if not q:
-        # n = 6: every weak ordering pattern (dense ranks), weights in {0,1,2}
-        for x in itertools.product(range(6), repeat=6):
-            if sorted(set(x)) == list(range(len(set(x)))):
-                cases.append({'kind': 'quantile', 'x': list(x), 'wmax': 2, 'alphas': _alphas(True), 'scales': ['3'],
-                              'dtypes': ['ff'], 'with_none': True})
     ctx.count(quantile_alphabet_x=len(cases), quantile_alphabet_alpha=len(alphas))
     _run(ctx, run_quantile, cases, 'quantile', sample_every=max(1, len(cases) // 3))
 
@@ -765,7 +813,6 @@ def run(ctx):
 
     # ---- GM rvs, mode E
     cases = []
-    sizes = (1, 2, 3, 4) if q else (1, 2, 3, 4, 5)
     R = 3 if q else 4
     seeds = [base + s for s in range(2)]
     for d in (1, 2, 3):
@@ -777,10 +824,13 @@ def run(ctx):
             for form in forms:
                 for cov in covs:
                     for w in wsel:
-                        for size in sizes:
+                        for size in (1, 2, 3, 4):
                             for s in seeds:
                                 cases.append({'kind': 'rvs-tree', 'd': d, 'k': k, 'form': form, 'cov': cov, 'w': w,
                                               'size': size, 'rounds': R, 'seed': s})
+                        if not q and cov == covs[-1] and form == forms[0]:
+                            cases.append({'kind': 'rvs-tree', 'd': d, 'k': k, 'form': form, 'cov': cov, 'w': w,
+                                          'size': 5, 'rounds': R, 'seed': base})
     if not q:
         for d, k, form, cov, w in ((1, 2, 'flat', 's2', None), (2, 3, 'rows', 'full0', [1, 0, 3]), (3, 2, 'rows', 'diag', None)):
             cases.append({'kind': 'rvs-tree', 'd': d, 'k': k, 'form': form, 'cov': cov, 'w': w, 'size': 6, 'rounds': 3,
@@ -797,7 +847,7 @@ def run(ctx):
             'choice_points': int(sum(r['cnt'].get('rvs_choice_points', 0) for _, r in res)),
             'max_choice_depth': int(max([r.get('max_depth', 0) for _, r in res] or [0])),
             'max_rounds_reached': int(max([r.get('max_rounds', 0) for _, r in res] or [0])),
-            'adversarial_rounds': R, 'sizes': list(sizes),
+            'adversarial_rounds': sorted(set(c['rounds'] for c, _ in res)), 'sizes': sorted(set(c['size'] for c, _ in res)),
             'expected_executions_per_tree': '(rounds+1)**size (each row is accepted in round 1..R or in the forced round)',
         }
         if any(r['cnt'].get('rvs_capped') for _, r in res):
